@@ -36,6 +36,10 @@ CHECKS = {
     technique='TLA+ SioClient.tla (acks config) + exhaustive graph validation of Client and AsyncClient',
     text='C09_EventDispatch (one handler call, one ACK/BINARY_ACK with the id and namespace even when no handler is responsible), C09_IssuedIdUnique, C09_AckOutcome (callback once, only for namespace+id outstanding, unknown/repeated ACKs change nothing), C09_IssuedMatchesCore; call() with every order of {ACK, other ACK, transport error, silence} as one re-entrant transition.',
     ref='4/C09', note='Trusted: TLC; FakeEio (see C08).'),
+ 'C10': dict(
+    technique='TLA+ Reconnect.tla (policy as a guarded event machine, model-checked) + trace validation: recorded executions of Client and AsyncClient replayed by TLC (ReconnectTraces.tla)',
+    text='Every scenario of the grid {delay} x {delay_max} x {randomization} x {attempts 0/1/3} x reconnection on/off x 4 causes of loss x every failure pattern of the successive attempts up to the bound (transport failure / namespace refusal) x abort at every back-off x {second loss after success, manual reconnect after giving up} is executed on the real Client and AsyncClient; each observed event (Lose/started, Backoff with the timeout handed to the wait primitive or the elapsed virtual time, Attempt with its url/headers/auth/transports/namespaces, Handlers, End) must be enabled in Reconnect.tla: interval of the k-th wait, attempts bound, no attempt after success or abort, one effort at a time, same parameters. random.random is not patched. Known finding D8 modelled as a deviation; the design is model-checked.',
+    ref='4/C10', note='Trusted: TLC; FakeEio for engine.io; virtual-time loop; waiting observed only through wait primitives.'),
  'C11': dict(
     technique='TLA+ SioServer.tla (residue config, raising handlers) + exhaustive graph validation + reachability scan of the real server object',
     text='C11_NoResidue and C11_FreshWhenEmpty on spec and on every implementation state; the projection adds a walk of everything reachable from the server object looking for ids of departed clients. Known finding D3 (raising disconnect handler) is modelled as a named deviation; the design without it is model-checked too.',
